@@ -165,7 +165,16 @@ def lookup(rep, prog, table):
     if isinstance(t, Opq) and t.k[0] == 'dispatchcall':
         _, tab, key, args, kw = t.k
         want = {'amplitude0': ev.getattr(A('tf'), 'amplitude', f.mod, 0), 'phase0': ev.getattr(A('tf'), 'phase', f.mod, 0), 'offset0': ev.getattr(A('tf'), 'offset', f.mod, 0)}
-        ok = not args and set(kw) == set(want) and all(term_equal(kw[k], want[k]) for k in want)
+        # positional arguments are bound to the fields of EVERY class the table can dispatch to
+        ok = True
+        targets = list(tab.values()) if isinstance(tab, dict) else []
+        if not targets: ok = None
+        for cref in targets:
+            if not (isinstance(cref, Ref) and cref.kind == 'class'): ok = None; break
+            fl = [f_[0] for f_ in prog.dataclass_fields(cref.mod, cref.node) if f_[3]]
+            if len(args) > len(fl) or any(k in fl[:len(args)] for k in kw): ok = False; break
+            bound = dict(zip(fl, args)); bound.update(kw)
+            if not (set(bound) == set(want) and all(term_equal(bound[k], want[k]) for k in want)): ok = False; break
         ok = bool(ok) and 'type' in repr(tkey(key))
     rep.ob('R08.lookup', 'fourier_series:wiring', ok, f'= {t!r:.240}', f.site)
     # periodic_function(name) returns exactly the wave class whose wavetype is `name`, for every class of the mapping
